@@ -521,7 +521,6 @@ func (x *Exec) applyRecords(st *St, sc *Contract, env *CEnv, p token.Pos, check 
 	})
 }
 
-
 // leavesLoopEarly: the body of a range statement contains a statement that leaves the loop before the range is
 // exhausted (return, goto, a labelled break or continue, or a break that is not nested in an inner loop / switch / select).
 func leavesLoopEarly(body *ast.BlockStmt) bool {
